@@ -47,6 +47,7 @@ const (
 	OpBNot
 	OpUF // uninterpreted function application: name = function symbol
 	OpSelect // constant table lookup: tab[args[0]]
+	OpLin    // Int mode: c0 + Σ coef_i·args[i]
 )
 
 var opNames = map[Op]string{
@@ -70,6 +71,7 @@ type Term struct {
 	bk     *big.Int
 	lo, hi *big.Int
 	alias  *Term // same value as alias, tighter interval
+	lin    *linT
 }
 
 func (t *Term) IsConst() bool { return t.op == OpConst }
@@ -111,6 +113,7 @@ type TermStore struct {
 	quotSeq    int
 	wraps      int
 	abstracted bool
+	monoDefs   [][3]*Term
 }
 
 // Constants are global (shared by all stores, including the init-time heap) so that frozen
@@ -1024,6 +1027,16 @@ func (t *Term) body() string {
 		fmt.Fprintf(&sb, "((_ sign_extend %d) %s)", t.w-t.args[0].w, t.args[0].ref())
 	case OpSelect:
 		return t.selectBody()
+	case OpLin:
+		sb.WriteString("(+ " + intLit(t.lin.c0))
+		for i, a := range t.lin.atoms {
+			if t.lin.coefs[i].Cmp(bigOne) == 0 {
+				sb.WriteString(" " + a.ref())
+			} else {
+				sb.WriteString(" (* " + intLit(t.lin.coefs[i]) + " " + a.ref() + ")")
+			}
+		}
+		sb.WriteString(")")
 	case OpUF:
 		if len(t.args) == 0 {
 			return t.name
@@ -1123,6 +1136,12 @@ func (s *TermStore) rebuild(t *Term, a []*Term) *Term {
 		return s.Select(t.tab, a[0])
 	case OpUF:
 		return s.UF(t.name, t.w, a...)
+	case OpLin:
+		res := s.IConst(t.lin.c0)
+		for i, x := range a {
+			res = s.IAdd(res, s.IMulC(t.lin.coefs[i], x))
+		}
+		return res
 	}
 	return t
 }
